@@ -77,3 +77,9 @@ claim('C01',
       'writers confined to the evaluator, arguments by value - plus the read-before-write ordering of op-assign and swap; thorough adds '
       'compile-fail witnesses with compiling twins. Which slot a mutation addresses is not decided.',
       'type-graph reachability + who-may-call census + compile_fail witnesses (typestate enforced by rustc)', level='proof')
+claim('C02',
+      'Decides the structural necessary conditions of in-place mutation, not the allocation bound: the target slot is nulled (and '
+      'really released - no-op drops only for homogeneous payloads) before the operator runs on the value read, elements are taken out '
+      'before the every-function runs, every function of the in-place path goes through Rc::make_mut and contains no whole-payload '
+      'copy or reallocation, consuming iterators drain unique handles, arguments travel by value.',
+      'dominance (must-pass-through) + forbidden-callee census over the in-place function table')
